@@ -695,6 +695,11 @@ def make_transform_data_hq_lossy(
                 8 * slice_size_scaler,
                 minimum_qindex,
             )
+            # The qindex field of a HQ picture slice is only 8 bits wide
+            # (13.5.4): if even the largest index which can be signalled does
+            # not make the coefficients fit, the slice cannot be coded.
+            if qindex > 255:
+                raise InsufficientHQPictureBytesError()
             transform_data["hq_slices"].append(
                 make_hq_slice(
                     y_transform,
@@ -781,6 +786,11 @@ def make_transform_data_ld_lossy(picture_bytes, transform_coeffs, minimum_qindex
                 [y_coeffs, c_coeffs],
                 minimum_qindex=minimum_qindex,
             )
+            # The qindex field of a LD picture slice is only 7 bits wide
+            # (13.5.3.1): if even the largest index which can be signalled does
+            # not make the coefficients fit, the slice cannot be coded.
+            if qindex > 127:
+                raise InsufficientLDPictureBytesError()
             transform_data["ld_slices"].append(
                 make_ld_slice(
                     y_transform,
